@@ -881,9 +881,11 @@ class StrainEnergy:
             3x3 rotation matrix
         '''
         self.rotation = np.array(rot)
+        self.update()
 
     def setRotationPrecipitate(self, rot):
         self.rotationPrec = np.array(rot)
+        self.update()
 
     def setEigenstrain(self, strain):
         '''
